@@ -1,12 +1,431 @@
-import AsherahVerif.Model.MetastoreInst
+import AsherahVerif.Proofs.MetastoreInst
 /-
 C13 — every metastore implementation is an insert-only, read-your-writes key table.
-(first increment: the tie of the model's literals to the source)
+
+Everything here is about the executable models of Model/Metastore.lean — `Mem` (memory.go), `sqlStep`
+on `Sql` (sql.go on a table with PRIMARY KEY (id, created)), `ddbStep` on `Ddb` (both DynamoDB
+metastores on a table with conditional PutItem and possibly stale reads) — instantiated with the
+literals REGENERATED from /repo (`G.facts`: SQL statements, struct tags, request literals); the
+differential check runs the same definitions against the four real Go metastores on every run.
+
+Quantifiers: every theorem holds for ALL operation sequences (`List (Op × Env)`: Store/Load/LoadLatest
+over arbitrary, overlapping ids and stamps), ALL record contents (`Rec`: any key bytes, revoked flag,
+with/without parent meta of any id), ALL four ways of constructing the SQL metastore, ALL DynamoDB
+table names, and ALL environments (`Env`: which backend requests fail; by how many writes an eventually
+consistent read lags).  The specification is `Table` (insert-if-absent `store`, `load`,
+`loadLatest` = greatest `created`); `Res.proj` forgets which error an operation reported.
+
+What deviates from the property's wording and is stated precisely instead:
+* `EnvelopeKeyRecord.ID` is tagged `json:"-"` (`id_not_persisted`): the three persistent backends return
+  `ID = ""`; "every field intact" holds for all persisted fields (`Op.eraseId` on the specification side).
+  The in-memory metastore returns the stored record unchanged.
+* SQL and DynamoDB report a duplicate as `(false, error)`, the in-memory metastore as `(false, nil)`
+  (`*_dup_error`); other backend failures are `(false, error)` as well and leave the table unchanged.
+* DynamoDB refuses empty key attribute values: the DynamoDB theorems are for non-empty ids.
 -/
 namespace AsherahVerif.Props.C13
 open AsherahVerif.Metastore
+set_option linter.unusedSimpArgs false
 
-/-- the literals the model is instantiated with in the driver are the ones the theorems are about -/
+/-! ## the tie to the source -/
+
+/-- the literals the driver instantiates the model with (regenerated from /repo on every run) are the
+ones the theorems below are proved for -/
 theorem generated_facts_eq_expected : G.facts = E.facts := by decide +kernel
+
+/-- `EnvelopeKeyRecord.ID` is deliberately not serialised -/
+theorem id_not_persisted : G.facts.idTag = "-" := by decide +kernel
+
+/-- the regenerated ConsistentRead / ScanIndexForward / Limit / condition literals of both DynamoDB
+metastores are the ones strong consistency and "latest" need -/
+theorem ddb_request_literals :
+    G.facts.v1.getConsistent = some true ∧ G.facts.v1.queryConsistent = some true ∧
+    G.facts.v1.scanForward = some false ∧ G.facts.v1.limit = some 1 ∧
+    G.facts.v1.conditionExpr = "attribute_not_exists(Id)" ∧
+    G.facts.v2.getConsistent = some true ∧ G.facts.v2.queryConsistent = some true ∧
+    G.facts.v2.scanForward = some false ∧ G.facts.v2.limit = some 1 ∧
+    G.facts.v2.conditionExpr = "attribute_not_exists(Id)" := by decide +kernel
+
+namespace Shape
+open AsherahVerif.Generated.Metastore
+/-- shape of the functions the model mirrors (skeletons, argument lists, return statements, struct tags,
+complete request literals): any edit of these functions re-opens this obligation -/
+theorem source_shape_memory :
+    memLoadSkeleton = AsherahVerif.Expected.Metastore.memLoadSkeleton ∧
+    memLoadLatestSkeleton = AsherahVerif.Expected.Metastore.memLoadLatestSkeleton ∧
+    memStoreSkeleton = AsherahVerif.Expected.Metastore.memStoreSkeleton ∧
+    memLoadAssigns = AsherahVerif.Expected.Metastore.memLoadAssigns ∧
+    memLoadReturns = AsherahVerif.Expected.Metastore.memLoadReturns ∧
+    memLoadLatestAssigns = AsherahVerif.Expected.Metastore.memLoadLatestAssigns ∧
+    memLoadLatestReturns = AsherahVerif.Expected.Metastore.memLoadLatestReturns ∧
+    memStoreAssigns = AsherahVerif.Expected.Metastore.memStoreAssigns ∧
+    memStoreReturns = AsherahVerif.Expected.Metastore.memStoreReturns ∧
+    memLoadLatestSortLess = AsherahVerif.Expected.Metastore.memLoadLatestSortLess ∧
+    memEnvelopesType = AsherahVerif.Expected.Metastore.memEnvelopesType :=
+  ⟨rfl, rfl, rfl, rfl, rfl, rfl, rfl, rfl, rfl, rfl, rfl⟩
+
+theorem source_shape_sql :
+    ekrJsonTags = AsherahVerif.Expected.Metastore.ekrJsonTags ∧
+    keyMetaJsonTags = AsherahVerif.Expected.Metastore.keyMetaJsonTags ∧
+    sqlLoadKeyQuery = AsherahVerif.Expected.Metastore.sqlLoadKeyQuery ∧
+    sqlStoreKeyQuery = AsherahVerif.Expected.Metastore.sqlStoreKeyQuery ∧
+    sqlLoadLatestQuery = AsherahVerif.Expected.Metastore.sqlLoadLatestQuery ∧
+    sqlDefaultDBType = AsherahVerif.Expected.Metastore.sqlDefaultDBType ∧
+    sqlQrx = AsherahVerif.Expected.Metastore.sqlQrx ∧
+    sqlQSkeleton = AsherahVerif.Expected.Metastore.sqlQSkeleton ∧
+    sqlQReturns = AsherahVerif.Expected.Metastore.sqlQReturns ∧
+    sqlQAssigns = AsherahVerif.Expected.Metastore.sqlQAssigns ∧
+    sqlQReplacement = AsherahVerif.Expected.Metastore.sqlQReplacement ∧
+    sqlWithDBTypeSkeleton = AsherahVerif.Expected.Metastore.sqlWithDBTypeSkeleton ∧
+    sqlNewFields = AsherahVerif.Expected.Metastore.sqlNewFields ∧
+    sqlNewSkeleton = AsherahVerif.Expected.Metastore.sqlNewSkeleton ∧
+    sqlParseEnvelopeSkeleton = AsherahVerif.Expected.Metastore.sqlParseEnvelopeSkeleton ∧
+    sqlParseEnvelopeReturns = AsherahVerif.Expected.Metastore.sqlParseEnvelopeReturns ∧
+    sqlLoadSkeleton = AsherahVerif.Expected.Metastore.sqlLoadSkeleton ∧
+    sqlLoadArgs = AsherahVerif.Expected.Metastore.sqlLoadArgs ∧
+    sqlLoadAssigns = AsherahVerif.Expected.Metastore.sqlLoadAssigns ∧
+    sqlLoadLatestSkeleton = AsherahVerif.Expected.Metastore.sqlLoadLatestSkeleton ∧
+    sqlLoadLatestArgs = AsherahVerif.Expected.Metastore.sqlLoadLatestArgs ∧
+    sqlStoreSkeleton = AsherahVerif.Expected.Metastore.sqlStoreSkeleton ∧
+    sqlStoreArgs = AsherahVerif.Expected.Metastore.sqlStoreArgs ∧
+    sqlStoreAssigns = AsherahVerif.Expected.Metastore.sqlStoreAssigns ∧
+    sqlStoreReturns = AsherahVerif.Expected.Metastore.sqlStoreReturns :=
+  ⟨rfl, rfl, rfl, rfl, rfl, rfl, rfl, rfl, rfl, rfl, rfl, rfl, rfl, rfl, rfl, rfl, rfl, rfl, rfl, rfl, rfl, rfl, rfl, rfl, rfl⟩
+
+theorem source_shape_ddb_v1 :
+    V1.getItemFields = AsherahVerif.Expected.Metastore.V1.getItemFields ∧
+    V1.queryFields = AsherahVerif.Expected.Metastore.V1.queryFields ∧
+    V1.putItemFields = AsherahVerif.Expected.Metastore.V1.putItemFields ∧
+    V1.loadSkeleton = AsherahVerif.Expected.Metastore.V1.loadSkeleton ∧
+    V1.loadReturns = AsherahVerif.Expected.Metastore.V1.loadReturns ∧
+    V1.loadLatestSkeleton = AsherahVerif.Expected.Metastore.V1.loadLatestSkeleton ∧
+    V1.loadLatestReturns = AsherahVerif.Expected.Metastore.V1.loadLatestReturns ∧
+    V1.storeSkeleton = AsherahVerif.Expected.Metastore.V1.storeSkeleton ∧
+    V1.storeReturns = AsherahVerif.Expected.Metastore.V1.storeReturns ∧
+    V1.decodeSkeleton = AsherahVerif.Expected.Metastore.V1.decodeSkeleton ∧
+    V1.decodeReturns = AsherahVerif.Expected.Metastore.V1.decodeReturns ∧
+    V1.withTableNameSkeleton = AsherahVerif.Expected.Metastore.V1.withTableNameSkeleton ∧
+    V1.envelopeJsonTags = AsherahVerif.Expected.Metastore.V1.envelopeJsonTags ∧
+    V1.envelopeFields = AsherahVerif.Expected.Metastore.V1.envelopeFields ∧
+    V1.regionSuffixSkeleton = AsherahVerif.Expected.Metastore.V1.regionSuffixSkeleton ∧
+    V1.newSkeleton = AsherahVerif.Expected.Metastore.V1.newSkeleton :=
+  ⟨rfl, rfl, rfl, rfl, rfl, rfl, rfl, rfl, rfl, rfl, rfl, rfl, rfl, rfl, rfl, rfl⟩
+
+theorem source_shape_ddb_v2 :
+    V2.getItemFields = AsherahVerif.Expected.Metastore.V2.getItemFields ∧
+    V2.queryFields = AsherahVerif.Expected.Metastore.V2.queryFields ∧
+    V2.putItemFields = AsherahVerif.Expected.Metastore.V2.putItemFields ∧
+    V2.loadSkeleton = AsherahVerif.Expected.Metastore.V2.loadSkeleton ∧
+    V2.loadReturns = AsherahVerif.Expected.Metastore.V2.loadReturns ∧
+    V2.loadLatestSkeleton = AsherahVerif.Expected.Metastore.V2.loadLatestSkeleton ∧
+    V2.loadLatestReturns = AsherahVerif.Expected.Metastore.V2.loadLatestReturns ∧
+    V2.storeSkeleton = AsherahVerif.Expected.Metastore.V2.storeSkeleton ∧
+    V2.storeReturns = AsherahVerif.Expected.Metastore.V2.storeReturns ∧
+    V2.decodeSkeleton = AsherahVerif.Expected.Metastore.V2.decodeSkeleton ∧
+    V2.decodeReturns = AsherahVerif.Expected.Metastore.V2.decodeReturns ∧
+    V2.withTableNameSkeleton = AsherahVerif.Expected.Metastore.V2.withTableNameSkeleton ∧
+    V2.itemTags = AsherahVerif.Expected.Metastore.V2.itemTags ∧
+    V2.envelopeTags = AsherahVerif.Expected.Metastore.V2.envelopeTags ∧
+    V2.keyMetaTags = AsherahVerif.Expected.Metastore.V2.keyMetaTags ∧
+    V2.envelopeFields = AsherahVerif.Expected.Metastore.V2.envelopeFields ∧
+    V2.decodeRecordFields = AsherahVerif.Expected.Metastore.V2.decodeRecordFields ∧
+    V2.newSkeleton = AsherahVerif.Expected.Metastore.V2.newSkeleton :=
+  ⟨rfl, rfl, rfl, rfl, rfl, rfl, rfl, rfl, rfl, rfl, rfl, rfl, rfl, rfl, rfl, rfl, rfl, rfl⟩
+end Shape
+
+/-! ## the specification means what the property says -/
+
+/-- `loadLatest` returns exactly the record with the greatest creation time stored for the id -/
+theorem spec_loadLatest_is_greatest (t : Table) (id : String) (r : Rec) :
+    t.loadLatest id = some r ↔ ∃ c, t.load id c = some r ∧ ∀ c', (t.load id c').isSome = true → c' ≤ c :=
+  Table.loadLatest_eq_some t id r
+
+/-- … and nothing exactly when nothing is stored for the id -/
+theorem spec_loadLatest_none (t : Table) (id : String) : t.loadLatest id = none ↔ ∀ c, t.load id c = none :=
+  Table.loadLatest_eq_none t id
+
+/-- a Store reports `true` exactly when the key was absent -/
+theorem spec_store_true_iff_absent (t : Table) (id : String) (c : Int) (r : Rec) :
+    (t.store id c r).2 = true ↔ t.load id c = none := Table.store_true_iff t id c r
+
+/-! ## refinement, per backend -/
+
+/-- the backends, as refinements of the specification, instantiated with the REGENERATED literals -/
+def sqlR (s : SqlSetup) : Refinement Sql :=
+  sqlRefinement G.facts.rowNames (by rw [generated_facts_eq_expected]; exact rowNames_ok) (s.ms G.facts) s.dialect
+    (by rw [generated_facts_eq_expected]; exact sqlSetup_ok s)
+def ddb1R (table : String) : Refinement Ddb :=
+  ddbRefinement G.facts.v1 G.facts.codec1 (by rw [generated_facts_eq_expected]; exact ddb1_ok) table
+def ddb2R (table : String) : Refinement Ddb :=
+  ddbRefinement G.facts.v2 G.facts.codec2 (by rw [generated_facts_eq_expected]; exact ddb2_ok) table
+
+/-- **in-memory metastore**: for every operation sequence the results are exactly the specification's
+(records returned with every field, the ID included), the abstraction of the final state is the
+specification's final table, and no reachable state panics (the inner maps are never empty). -/
+theorem mem_refines_spec (ops : List Op) :
+    (Mem.run {} ops).2 = (Table.run [] (ops.map (·, false))).2 ∧
+    Table.Equiv (Mem.run {} ops).1.abs (Table.run [] (ops.map (·, false))).1 := by
+  obtain ⟨h1, _, h3⟩ := Mem.run_sim Mem.inv_empty (Table.Equiv.refl _) ops
+  exact ⟨h1, h3⟩
+
+/-- **SQL metastore**, for each of the four constructions (no option / MySQL / Postgres / Oracle) on a
+database of the matching placeholder dialect: results equal the specification's (Store's boolean;
+records with every persisted field; an error exactly where the request was made to fail), and the
+rows decode to exactly the specification's table. -/
+theorem sql_refines_spec (s : SqlSetup) (ops : List (Op × Env)) :
+    (runOut (sqlStep G.facts.rowNames (s.ms G.facts)) (docSql s.dialect) ops).2.map Res.proj =
+      (Table.run [] (ops.map fun oe => (oe.1.eraseId, oe.2.fault))).2.map Res.proj ∧
+    (runOut (sqlStep G.facts.rowNames (s.ms G.facts)) (docSql s.dialect) ops).1.abs G.facts.rowNames =
+      (Table.run [] (ops.map fun oe => (oe.1.eraseId, oe.2.fault))).1 := by
+  have ok : SqlOK (s.ms G.facts) (docSql s.dialect).dialect := by
+    rw [generated_facts_eq_expected]; exact sqlSetup_ok s
+  have okN : NamesOK G.facts.rowNames := by rw [generated_facts_eq_expected]; exact rowNames_ok
+  obtain ⟨h1, h2⟩ := sql_run_sim okN ok (sql_inv0 _ _) ops
+  exact ⟨h1, abs_of_inv okN h2⟩
+
+/-- **DynamoDB metastore (aws-v1)**, for every table name option, every staleness oracle (`Env.lag`) and
+every placement of failing requests; ids non-empty. -/
+theorem ddb1_refines_spec (tableOpt : Option String) (ops : List (Op × Env)) (hids : ∀ oe ∈ ops, oe.1.id ≠ "") :
+    let name := ddbTableName G.facts.v1 tableOpt
+    (runOut (ddbStep G.facts.v1 G.facts.codec1 name) (docTable name) ops).2.map Res.proj =
+      (Table.run [] (ops.map fun oe => (oe.1.eraseId, oe.2.fault))).2.map Res.proj ∧
+    (runOut (ddbStep G.facts.v1 G.facts.codec1 name) (docTable name) ops).1.abs G.facts.codec1 (projKeyRecord G.facts.v1) =
+      (Table.run [] (ops.map fun oe => (oe.1.eraseId, oe.2.fault))).1 := by
+  intro name
+  have ok : DdbOK G.facts.v1 G.facts.codec1 := by rw [generated_facts_eq_expected]; exact ddb1_ok
+  have inv0 : DdbInv G.facts.v1 G.facts.codec1 (docTable name) [] := by
+    rw [generated_facts_eq_expected]; exact ddb1_inv0 name
+  obtain ⟨h1, h2⟩ := ddb_run_sim ok inv0 ops hids
+  exact ⟨h1, abs_of_ddbInv ok h2⟩
+
+/-- **DynamoDB metastore (aws-v2)**, likewise. -/
+theorem ddb2_refines_spec (tableOpt : Option String) (ops : List (Op × Env)) (hids : ∀ oe ∈ ops, oe.1.id ≠ "") :
+    let name := ddbTableName G.facts.v2 tableOpt
+    (runOut (ddbStep G.facts.v2 G.facts.codec2 name) (docTable name) ops).2.map Res.proj =
+      (Table.run [] (ops.map fun oe => (oe.1.eraseId, oe.2.fault))).2.map Res.proj ∧
+    (runOut (ddbStep G.facts.v2 G.facts.codec2 name) (docTable name) ops).1.abs G.facts.codec2 (projKeyRecord G.facts.v2) =
+      (Table.run [] (ops.map fun oe => (oe.1.eraseId, oe.2.fault))).1 := by
+  intro name
+  have ok : DdbOK G.facts.v2 G.facts.codec2 := by rw [generated_facts_eq_expected]; exact ddb2_ok
+  have inv0 : DdbInv G.facts.v2 G.facts.codec2 (docTable name) [] := by
+    rw [generated_facts_eq_expected]; exact ddb2_inv0 name
+  obtain ⟨h1, h2⟩ := ddb_run_sim ok inv0 ops hids
+  exact ⟨h1, abs_of_ddbInv ok h2⟩
+
+/-! ## insert-only, duplicates, read-your-writes — for every backend at once
+
+`R` ranges over the four refinements (`memRefinement`, `sqlR s`, `ddb1R table`, `ddb2R table`); `s`/`t` are any
+related backend state / specification table (in particular every state reachable from the empty one,
+`reachable_related`). -/
+
+/-- every state reachable from the initial one is related to the specification's table -/
+theorem reachable_related {σ : Type} (R : Refinement σ) (s0 : σ) (h0 : R.Inv s0 []) (ops : List (Op × Env))
+    (hok : ∀ oe ∈ ops, R.okOp oe.1) :
+    R.Inv (runOut R.step s0 ops).1 (Table.run [] (R.specOps ops)).1 := (R.run_sim s0 [] h0 ops hok).2
+
+theorem mem_initial : memRefinement.Inv {} [] := ⟨Mem.inv_empty, Table.Equiv.refl _⟩
+theorem sql_initial (s : SqlSetup) : (sqlR s).Inv (docSql s.dialect) [] := ⟨rfl, sql_inv0 _ _⟩
+theorem ddb1_initial (table : String) : (ddb1R table).Inv (docTable table) [] :=
+  ⟨rfl, by rw [generated_facts_eq_expected]; exact ddb1_inv0 table⟩
+theorem ddb2_initial (table : String) : (ddb2R table).Inv (docTable table) [] :=
+  ⟨rfl, by rw [generated_facts_eq_expected]; exact ddb2_inv0 table⟩
+
+/-- **Store never overwrites**: whatever operation runs next (any Store with any contents under any
+key included, failing or not), a record the table holds is still there, unchanged. -/
+theorem store_never_overwrites {σ : Type} (R : Refinement σ) (s : σ) (t : Table) (h : R.Inv s t) (env : Env) (op : Op)
+    (hok : R.okOp op) {id : String} {c : Int} {r : Rec} (hl : (R.abs s).load id c = some r) :
+    (R.abs (R.step s env op).st).load id c = some r := R.never_overwrites s t h env op hok hl
+
+/-- **a duplicate Store reports false** (never success) and leaves the table as it was — for every
+record content, whether or not the request also fails. -/
+theorem dup_reports_false {σ : Type} (R : Refinement σ) (s : σ) (t : Table) (h : R.Inv s t) (env : Env)
+    (id : String) (c : Int) (r r0 : Rec) (hok : R.okOp (.store id c r)) (hl : (R.abs s).load id c = some r0) :
+    (R.step s env (.store id c r)).res.proj = .stored false none ∧
+    Table.Equiv (R.abs (R.step s env (.store id c r)).st) (R.abs s) := R.dup_false s t h env id c r r0 hok hl
+
+/-- … and a Store of an absent key whose request does not fail reports true -/
+theorem fresh_reports_true {σ : Type} (R : Refinement σ) (s : σ) (t : Table) (h : R.Inv s t) (env : Env)
+    (id : String) (c : Int) (r : Rec) (hok : R.okOp (.store id c r)) (hf : R.faultOf env = false)
+    (hl : (R.abs s).load id c = none) :
+    (R.step s env (.store id c r)).res.proj = .stored true none := R.fresh_true s t h env id c r hok hf hl
+
+/-- **read your writes / strong consistency**: once a Store has reported `true`, every later Load of
+that key returns exactly that record (as persisted) — after any operations in between (other Stores
+of the same key with other contents included) and under any environment: in particular for every
+staleness oracle of DynamoDB.  For the DynamoDB backends this rests on the regenerated
+`ConsistentRead` literals being `true` (`ddb_request_literals`, part of `ddb1_ok`/`ddb2_ok`);
+`stale_read_counterexample` shows the premise is needed. -/
+theorem read_your_writes {σ : Type} (R : Refinement σ) (s : σ) (t : Table) (h : R.Inv s t) (env : Env)
+    (id : String) (c : Int) (r : Rec) (hok : R.okOp (.store id c r))
+    (htrue : (R.step s env (.store id c r)).res.proj = .stored true none)
+    (between : List (Op × Env)) (hbetween : ∀ oe ∈ between, R.okOp oe.1)
+    (env' : Env) (hf : R.faultOf env' = false) (hokL : R.okOp (.load id c)) :
+    ∃ r', R.norm (.store id c r) = .store id c r' ∧
+      (R.step (runOut R.step (R.step s env (.store id c r)).st between).1 env' (.load id c)).res = .loaded (some r') :=
+  R.read_your_writes s t h env id c r hok htrue between hbetween env' hf hokL
+
+/-- with `ConsistentRead` absent (eventually consistent reads) the same DynamoDB model does NOT have
+read-your-writes: a Load right after a successful Store may answer "nothing". -/
+theorem stale_read_counterexample :
+    let L := { E.facts.v1 with getConsistent := none }
+    let r : Rec := ⟨"", false, 5, [1, 2, 3], none⟩
+    let o1 := ddbStep L E.facts.codec1 "T" (docTable "T") {} (.store "k" 5 r)
+    let o2 := ddbStep L E.facts.codec1 "T" o1.st { lag := 1 } (.load "k" 5)
+    o1.res = .stored true none ∧ o2.res = .loaded none := by decide +kernel
+
+/-! ## error mapping -/
+
+/-- the in-memory metastore reports a duplicate as `(false, nil)` -/
+theorem mem_dup_no_error (m : Mem) (id : String) (c : Int) (r : Rec) (h : (m.get2 id c).isSome = true) :
+    m.store id c r = (m, .stored false none) := Mem.get2_store_present r h
+
+/-- sql.go maps every `ExecContext` error to `(false, err)`: a duplicate key … -/
+theorem sql_dup_error (s : SqlSetup) (db : Sql) (hd : db.dialect = s.dialect) (id : String) (c : Int) (r : Rec)
+    (h : db.rows.any (fun x => x.id = id ∧ x.created = c) = true) :
+    (sqlStep G.facts.rowNames (s.ms G.facts) db {} (.store id c r)).res = .stored false (some .dup) := by
+  have ok : SqlOK (s.ms G.facts) db.dialect := by
+    rw [generated_facts_eq_expected, hd]; exact sqlSetup_ok s
+  simp only [sqlStep, sqlExec_insert db _ id c _ ok.store, h, if_true]
+
+/-- … and a failed request alike (the caller cannot tell them apart), the table unchanged -/
+theorem sql_fault_error (s : SqlSetup) (db : Sql) (hd : db.dialect = s.dialect) (id : String) (c : Int) (r : Rec) :
+    (sqlStep G.facts.rowNames (s.ms G.facts) db { fault := true } (.store id c r)).res = .stored false (some .injected) ∧
+    (sqlStep G.facts.rowNames (s.ms G.facts) db { fault := true } (.store id c r)).st = db := by
+  have ok : SqlOK (s.ms G.facts) db.dialect := by
+    rw [generated_facts_eq_expected, hd]; exact sqlSetup_ok s
+  simp only [sqlStep, sqlExec_fault db _ id c _ ok.store, and_self]
+
+/-- a malformed row (reachable only by writing to the table behind the metastore's back): SQL Load
+reports an error, except for the JSON text `null`, which it reports as "not found" -/
+theorem sql_malformed_row :
+    (decodeRowText E.facts.rowNames "{\"Created\":\"x\"}" matches .error .decode) = true ∧
+    (decodeRowText E.facts.rowNames "null" matches .ok none) = true ∧
+    (decodeRowText E.facts.rowNames "" matches .error .decode) = true := by decide +kernel
+
+/-- memory.go `LoadLatest` indexes `createdKeys[len-1]`: on an empty inner map (reachable only by
+editing the exported `Envelopes` field) it panics — explicit in the model; `mem_refines_spec` shows no
+state reachable through the API has one. -/
+theorem mem_loadLatest_empty_inner_panics (id : String) : (Mem.mk [(id, [])]).loadLatest id = .panic := by
+  simp [Mem.loadLatest, aGet, isort]
+
+/-! ## SQL placeholder rewriting -/
+
+/-- **`q` preserves arity, for every string**: for Postgres/Oracle the result is the input with its
+pieces between question marks untouched and the i-th `?` (i = 1, 2, …) replaced by `$i` / `:i` — as
+many markers as there were `?`, none left over; for every other db type the string is unchanged. -/
+theorem placeholder_rewrite_preserves_arity (sql : String) (t : String) :
+    (t = G.facts.sql.postgres → q G.facts.sql t sql = String.ofList (joinMarkers '$' 0 (pieces sql.toList))) ∧
+    (t = G.facts.sql.oracle → q G.facts.sql t sql = String.ofList (joinMarkers ':' 0 (pieces sql.toList))) ∧
+    (t ≠ G.facts.sql.postgres → t ≠ G.facts.sql.oracle → q G.facts.sql t sql = sql) ∧
+    (pieces sql.toList).length = sql.toList.count '?' + 1 ∧
+    joinQ (pieces sql.toList) = sql.toList ∧
+    '?' ∉ qRewrite '$' 0 sql.toList ∧ '?' ∉ qRewrite ':' 0 sql.toList := by
+  have hne : G.facts.sql.oracle ≠ G.facts.sql.postgres := by decide +kernel
+  refine ⟨?_, ?_, ?_, pieces_length _, joinQ_pieces _, qRewrite_no_qmark '$' (by decide) 0 _, qRewrite_no_qmark ':' (by decide) 0 _⟩
+  · intro h; subst h
+    unfold q
+    rw [if_pos rfl, qRewrite_eq_joinMarkers]
+  · intro h; subst h
+    unfold q
+    rw [if_neg hne, if_pos rfl, qRewrite_eq_joinMarkers]
+  · intro h1 h2
+    unfold q
+    rw [if_neg h1, if_neg h2]
+
+/-- for the three statements of sql.go the rewritten text means, in its dialect, exactly what the `?`
+text means in MySQL's: same statement, same parameter positions -/
+theorem placeholder_rewrite_preserves_meaning (s : SqlSetup) :
+    parseSql s.dialect (s.ms G.facts).storeKeyQuery = parseSql .mysql G.facts.sql.storeKeyQuery ∧
+    parseSql s.dialect (s.ms G.facts).loadKeyQuery = parseSql .mysql G.facts.sql.loadKeyQuery ∧
+    parseSql s.dialect (s.ms G.facts).loadLatestQuery = parseSql .mysql G.facts.sql.loadLatestQuery := by
+  rw [generated_facts_eq_expected]
+  have a := sqlSetup_ok s
+  have b := sqlSetup_ok .default
+  exact ⟨a.store.trans b.store.symm, a.load.trans b.load.symm, a.latest.trans b.latest.symm⟩
+
+/-! ## codec round trips: every field intact -/
+
+/-- **SQL row**: `json.Unmarshal(json.Marshal(r))` restores every persisted field, for every record
+(any key bytes — every base64 padding case —, revoked or not, with or without parent meta of any id
+and stamp), at the level of the JSON TEXT stored in `key_record`. -/
+theorem sql_row_codec_roundtrip (r : Rec) :
+    decodeRowText G.facts.rowNames (String.ofList (encodeRowText G.facts.rowNames r)) = .ok (some r.eraseId) := by
+  rw [generated_facts_eq_expected]
+  exact decodeRowText_encodeRowText _ rowNames_ok r
+
+/-- **DynamoDB item, aws-v1**: what `Store` marshals (`DynamoDBEnvelope`, empty strings as NULL) is what
+`Load`/`LoadLatest` unmarshal (`EnvelopeKeyRecord`), for every record. -/
+theorem ddb_v1_item_codec_roundtrip (r : Rec) :
+    G.facts.codec1.decodeGet [(G.facts.v1.keyRecord, .m (G.facts.codec1.marshal r))] = some r.eraseId := by
+  rw [generated_facts_eq_expected]
+  exact ddb1_ok.codec r
+
+/-- **DynamoDB item, aws-v2**: `decodeItem` of the projected item `Store` wrote, for every record. -/
+theorem ddb_v2_item_codec_roundtrip (r : Rec) :
+    G.facts.codec2.decodeGet [(G.facts.v2.keyRecord, .m (G.facts.codec2.marshal r))] = some r.eraseId := by
+  rw [generated_facts_eq_expected]
+  exact ddb2_ok.codec r
+
+/-- the primitive codecs, for all inputs -/
+theorem base64_roundtrip (bs : List UInt8) : b64Decode (b64Encode bs) = some bs := b64Decode_encode bs
+theorem decimal_roundtrip (i : Int) : parseInt (fmtInt i) = some i := parseInt_fmtInt i
+theorem json_string_roundtrip (s rest : List Char) : parseStrBody (jsonEscape s ++ '"' :: rest) = some (s, rest) :=
+  parseStrBody_escape s rest
+
+/-! ## non-vacuity -/
+
+def recA : Rec := ⟨"_SK_svc_prod", false, 1700000000, [0, 255, 16, 62], some ⟨"p\"q\\<é", 1699999999⟩⟩
+def recB : Rec := ⟨"other", true, 7, [], none⟩
+
+/-- a history with a duplicate, overlapping stamps and a LoadLatest, on the in-memory metastore -/
+example :
+    (Mem.run {} [.store "a" 5 recA, .store "a" 9 recB, .store "a" 5 recB, .load "a" 5, .latest "a", .latest "b"]).2 =
+      [.stored true none, .stored true none, .stored false none, .loaded (some recA), .loaded (some recB), .loaded none] := by
+  decide +kernel
+
+/-- the same on Postgres-flavoured SQL (ids not persisted; the duplicate is an error) -/
+example :
+    (runOut (sqlStep G.facts.rowNames (SqlSetup.postgres.ms G.facts)) (docSql .postgres)
+      [(.store "a" 5 recA, {}), (.store "a" 9 recB, {}), (.store "a" 5 recB, {}), (.load "a" 5, {}), (.latest "a", {}),
+       (.latest "b", {}), (.load "a" 9, { fault := true })]).2 =
+      [.stored true none, .stored true none, .stored false (some .dup), .loaded (some recA.eraseId),
+       .loaded (some recB.eraseId), .loaded none, .fail .injected] := by
+  decide +kernel
+
+/-- … and on both DynamoDB metastores, reads lagging two writes behind unless consistent -/
+example :
+    (runOut (ddbStep G.facts.v1 G.facts.codec1 "EncryptionKey") (docTable "EncryptionKey")
+      [(.store "a" 5 recA, {}), (.store "a" 9 recB, {}), (.store "a" 5 recB, {}), (.load "a" 5, { lag := 2 }),
+       (.latest "a", { lag := 2 }), (.latest "b", {})]).2 =
+      [.stored true none, .stored true none, .stored false (some .cond), .loaded (some recA.eraseId),
+       .loaded (some recB.eraseId), .loaded none] := by
+  decide +kernel
+
+example :
+    (runOut (ddbStep G.facts.v2 G.facts.codec2 "Keys") (docTable "Keys")
+      [(.store "a" 5 recA, {}), (.store "a" 9 recB, {}), (.store "a" 5 recB, {}), (.load "a" 5, { lag := 2 }),
+       (.latest "a", { lag := 2 }), (.latest "b", {})]).2 =
+      [.stored true none, .stored true none, .stored false (some .cond), .loaded (some recA.eraseId),
+       .loaded (some recB.eraseId), .loaded none] := by
+  decide +kernel
+
+/-- the hypotheses of `read_your_writes`, `dup_reports_false`, `store_never_overwrites` are satisfiable:
+the initial states are related, a first Store reports true, the record is then held -/
+example : (memRefinement.step {} {} (.store "a" 5 recA)).res.proj = .stored true none := by decide +kernel
+example : ((ddb1R "T").abs ((ddb1R "T").step (docTable "T") {} (.store "a" 5 recA)).st).load "a" 5 = some recA.eraseId := by
+  decide +kernel
+
+/-- `q` on the statements of sql.go -/
+example : q G.facts.sql "postgres" G.facts.sql.loadKeyQuery = "SELECT key_record FROM encryption_key WHERE id = $1 AND created = $2" := by
+  decide +kernel
+example : q G.facts.sql "oracle" G.facts.sql.storeKeyQuery = "INSERT INTO encryption_key (id, created, key_record) VALUES (:1, :2, :3)" := by
+  decide +kernel
+example : q G.facts.sql "mysql" "a ? b" = "a ? b" := by decide +kernel
+example : pieces "a?b??".toList = [['a'], ['b'], [], []] := by decide +kernel
+
+/-- the JSON text of a row, with every escape class -/
+example : String.ofList (encodeRowText G.facts.rowNames recA) =
+    "{\"Created\":1700000000,\"Key\":\"AP8QPg==\",\"ParentKeyMeta\":{\"KeyId\":\"p\\\"q\\\\\\u003cé\",\"Created\":1699999999}}" := by
+  decide +kernel
 
 end AsherahVerif.Props.C13
